@@ -5,11 +5,18 @@
    decoder(encoder(s)) and the extracted same_molecule (spec/RoundTrip.v) compares them atom
    for atom, over re-spelt and mutated molecules and several tables; the encoder/decoder models
    are compared with the implementation on the same inputs.  Proved here: the index arithmetic
-   the round trip rests on. *)
+   the round trip rests on, and the ATOM half of the statement at the level of symbols
+   (C03_symbols_faithful_partial; proofs/EncAttr.v, EncFaithful.v): for ALL accepted SMILES, tables and
+   strict, the k-th atom of the graph is the atom read from the k-th atom token of the input; kekulize and
+   the inversion pass change only its aromatic flag / chirality tag; every atom symbol of the output is
+   printed from one atom of that graph, and the decoder's own symbol reader reads it back as an atom with
+   the same element, isotope, charge and hydrogen count as that input token.  So no atom is altered on its
+   way into the SELFIES string.  Not proved: that the decoder's derivation keeps every one of these symbols
+   (capacity is always sufficient under strict=True) and rebuilds the same bonds. *)
 From Coq Require Import String List ZArith NArith Bool.
 Import ListNotations.
 From Selfies Require Import Base Generated Atoms Grammar Decoder PySet Matching Smiles Kekulize Encoder
-  IndexSpec IndexCode Reader RoundTrip EncoderFacts PureFacts.
+  IndexSpec IndexCode Reader RoundTrip EncoderFacts PureFacts EncHyp EncGood EncAttr EncFaithful.
 Local Open Scope string_scope.
 
 Definition C03_full_statement : Prop :=
@@ -25,5 +32,15 @@ Theorem C03_three_symbols_partial : forall n syms,
   get_selfies_from_index (Z.of_N n) = Ok syms -> ((length syms <= 3)%nat <-> (n < 4096)%N).
 Proof. exact three_symbols_iff. Qed.
 
+(* the atom half, at the level of symbols: every atom symbol of the output reads back as the input atom it was made from *)
+Theorem C03_symbols_faithful_partial : forall T smiles strict x maps ts,
+  Qlen (length smiles) -> encoder T smiles strict true = Ok (x, maps) -> tokenize_smiles smiles = Ok ts ->
+  exists m tss mss,
+    x = join (lit ".") (map (@concat N) tss) /\
+    maps = filter (fun a => match am_token a with [] => false | _ => true end) (concat mss) /\
+    Forall2 (fun toks ms => Walked (reads_back ts) m toks (map ent ms)) tss mss.
+Proof. exact encoder_symbols_faithful. Qed.
+
 Print Assumptions C03_index_arithmetic_partial.
 Print Assumptions C03_three_symbols_partial.
+Print Assumptions C03_symbols_faithful_partial.
